@@ -988,7 +988,13 @@ func (d *Debugger) hNextTxIdx() int {
 		return -1
 	}
 
-	return d.hFilterTxCursor1(c, c.CursorTx1+1, false) - 1
+	idx := d.hFilterTxCursor1(c, c.CursorTx1+1, false) - 1
+	if idx >= len(c.MsgTxs) {
+		// no filter is active and the cursor is on the last transition
+		return -1
+	}
+
+	return idx
 }
 
 // CurrentTx returns the current transition. Thread safe via Eval().
